@@ -362,7 +362,7 @@ class DualVigilanceART(BaseART):
                             self.map[c_new] = self.map[c_]
                             self._set_params(base_params)
                             return self.map[c_new]
-                else:
+                elif m1:
                     keep_searching = self._match_tracking(
                         cache, epsilon, self.params, match_tracking
                     )
